@@ -45,6 +45,8 @@ type SimConn struct {
 
 	rbuf      []byte
 	rerr      error // returned once rbuf is drained
+	errWithData bool // the last bytes and rerr are returned by the same Read call
+	ErrSeen   bool  // a Read has returned rerr (the reader consumed the end condition)
 	rwait     chan struct{}
 	MaxRead   int // cap per Read, 0 = none
 	inRead    bool
@@ -90,6 +92,13 @@ func (c *SimConn) Read(p []byte) (int, error) {
 			c.rbuf = c.rbuf[n:]
 			c.Reads++
 			c.ReadBytes += n
+			if len(c.rbuf) == 0 && c.rerr != nil && c.errWithData {
+				err := c.rerr
+				c.ErrSeen = true
+				c.mu.Unlock()
+				c.e.Fault("eof-with-data")
+				return n, err
+			}
 			c.mu.Unlock()
 			return n, nil
 		}
@@ -99,6 +108,7 @@ func (c *SimConn) Read(p []byte) (int, error) {
 		}
 		if c.rerr != nil {
 			err := c.rerr
+			c.ErrSeen = true
 			c.mu.Unlock()
 			return 0, err
 		}
@@ -138,6 +148,22 @@ func (c *SimConn) EndRead(err error, discard bool) {
 	c.rerr = err
 	c.wakeReaderLocked()
 	c.mu.Unlock()
+}
+
+// EndReadWithData is EndRead where the final bytes and err come from one Read call.
+func (c *SimConn) EndReadWithData(err error) {
+	c.mu.Lock()
+	c.rerr = err
+	c.errWithData = true
+	c.wakeReaderLocked()
+	c.mu.Unlock()
+}
+
+// EndSeen reports whether a Read has returned the end condition.
+func (c *SimConn) EndSeen() bool {
+	c.mu.Lock()
+	defer c.mu.Unlock()
+	return c.ErrSeen
 }
 
 // ReaderParked reports whether the library is blocked in Read right now.
